@@ -723,6 +723,47 @@ func ruleC09Ifchanged(p *Prog, a *Anchors, r *Report) {
 			}
 		}
 	}
+	// what is remembered is a copy: the *Value returned by Evaluate may be an addressable view of a field that is
+	// updated in place before the next execution (forloop.Counter), so remembering it compares the field with itself
+	if evalCall != nil {
+		var evalVal ssa.Value
+		for _, u := range refs(evalCall) {
+			if ex, ok := u.(*ssa.Extract); ok && ex.Index == 0 {
+				evalVal = ex
+			}
+		}
+		kept := ""
+		var walk func(v ssa.Value, depth int)
+		seenV := map[ssa.Value]bool{}
+		walk = func(v ssa.Value, depth int) {
+			if v == nil || depth > 4 || seenV[v] {
+				return
+			}
+			seenV[v] = true
+			for _, u := range refs(v) {
+				switch u := u.(type) {
+				case *ssa.Store:
+					if u.Val == v {
+						kept = p.InstrPos(u)
+					}
+				case *ssa.Phi:
+					walk(u, depth+1)
+				case *ssa.MakeInterface:
+					walk(u, depth+1)
+				case *ssa.ChangeType:
+					walk(u, depth+1)
+				}
+			}
+		}
+		walk(evalVal, 0)
+		if evalVal == nil {
+			r.Unk("remember:detached", p.InstrPos(evalCall), "the value result of Evaluate is not identifiable")
+		} else if kept != "" {
+			r.Bad("remember:detached", kept, "the *Value returned by Evaluate is itself kept for the next comparison: when it is a view of a field that changes in place (forloop.Counter, a field of a pointer in the context) the tag later compares the field with itself and never sees a change")
+		} else {
+			r.OK("remember:detached", p.InstrPos(evalCall), "the evaluated *Value is only read; what is remembered is built from a copy of its content")
+		}
+	}
 	// the remembered values are replaced by the complete new list
 	stored := false
 	for _, b := range exec.Blocks {
